@@ -20,6 +20,7 @@
 From Coq Require Import List ZArith Bool String.
 From V Require Import Gen.Params Lib.Hex Wire.Varint USpec.Model UDial.Model.
 From V Require Export UDial.Retx.   (* the harness prints rop / rres constructors *)
+From V Require Import UDial.Reg.
 Import ListNotations.
 Open Scope Z_scope.
 
@@ -33,10 +34,23 @@ Inductive step :=
        (after : list rp) (afterKeys : list (Z * Z)) (afterSNI : string)
        (wire : list (Z * string)) (wsni : string).
 
+(* Reg: ONE UTransport, dials through the real doDial with closes and pauses; after every step,
+   for every source connection ID used so far (0 = the empty ID, else 0x01 || bytes as a number):
+   (ID, kind, owner) with kind 0 = no entry, 1 = live connection of dial [owner], 2 = a
+   closed-connection handler. GWaitShort is shorter than any expiry, GWaitLong longer than all. *)
+Inductive regop :=
+| GDial (k id : Z) (ok : bool)
+| GClose (k id : Z)
+| GDestroy (k id : Z)
+| GWaitShort
+| GWaitLong.
+Inductive regstep := GStep (o : regop) (obs : list (Z * Z * Z)).
+
 Inductive case :=
 | Seq (ps0 : list rp) (keys0 : list (Z * Z)) (sni0 : string) (steps : list step)
 | NilSpec (sizesU : list Z) (tpU : list (Z * string)) (sizesP : list Z) (tpP : list (Z * string))
-| Retx (n : Z) (planned : bool) (layout : option (list lframe)) (flight : list (Z * list (Z * Z))) (ops : list rop).
+| Retx (n : Z) (planned : bool) (layout : option (list lframe)) (flight : list (Z * list (Z * Z))) (ops : list rop)
+| Reg (steps : list regstep).
 
 (* per dial: spec after the dial (parameters, key shares as (group, |Data|), server name),
    extension 57 as a reader sees it, server_name *)
@@ -111,11 +125,36 @@ Fixpoint retx_ok (planned : bool) (layout : option (list lframe)) (st : rstate) 
     end
   end.
 
+Definition reg_apply (st : rgstate) (o : regop) : rgstate :=
+  match o with
+  | GDial k id _ => rgstep st (RgDial k id)
+  | GClose k id => rgstep st (RgClose k id)
+  | GDestroy k id => rgstep st (RgDestroy k id)
+  | GWaitShort => st
+  | GWaitLong => expire_all st
+  end.
+Definition reg_obs_ok (st : rgstate) (x : Z * Z * Z) : bool :=
+  let '(id, kind, owner) := x in
+  match route st id with
+  | None => kind =? 0
+  | Some (Live k) => (kind =? 1) && (owner =? k)
+  | Some (Tomb _) => kind =? 2
+  end.
+Fixpoint reg_ok (st : rgstate) (steps : list regstep) : bool :=
+  match steps with
+  | [] => true
+  | GStep o obs :: r =>
+    let st' := reg_apply st o in
+    (match o with GDial _ _ ok => ok | _ => true end) &&   (* registered => the replies arrive *)
+    forallb (reg_obs_ok st') obs && reg_ok st' r
+  end.
+
 Definition model_obs (c : case) : obs :=
   match c with
   | Seq ps0 keys0 sni0 steps => replay (Spec (mkps ps0) None (map mkkey keys0) (hx sni0) [] false) steps
   | NilSpec _ _ _ _ => ONil
   | Retx n planned layout flight ops => ORetx (retx_ok planned layout (RS flight [] []) ops)
+  | Reg steps => ORetx (reg_ok (RG [] []) steps)
   end.
 
 Definition param_eqb (a b : param) : bool :=
@@ -166,5 +205,6 @@ Definition check_case (c : case) : bool :=
   | Seq _ _ _ steps, OSeq l => steps_ok l steps
   | NilSpec su tu sp tp, ONil => zeqb_list su sp && zs_eqb_str tu tp
   | Retx _ _ _ _ _, ORetx ok => ok
+  | Reg _, ORetx ok => ok
   | _, _ => false
   end.
